@@ -2,6 +2,7 @@
   C13 — the decoded operation stream is exactly the program.
 -/
 import Miden.Lemmas.Runs
+import Miden.Lemmas.Nest
 namespace Miden.C13
 open Miden.Vm
 
@@ -21,6 +22,35 @@ theorem one_row_per_cycle (env : Env) (fuel : Nat) (b : Block) (vm vm' : Vm)
     vm'.trace.length = vm'.clk := by
   obtain ⟨l, t, c⟩ := (exec_prog h).1
   rw [t, c, h0, ht]; simp
+
+/-- The user operations decoded from the rows of any span are exactly the span's operations, in order:
+    batching only inserts alignment NOOPs and RESPAN markers (`Nest.keep` drops exactly those, on both
+    sides), for every operation list of any length and any mix of immediates. -/
+theorem span_rows_are_the_operations (ops : List Op) :
+    (spanRows ops).filter Nest.keep = ops.filter Nest.keep :=
+  Nest.spanRows_user_ops ops
+
+/-- Every row of a span is one of its operations, an alignment NOOP or a RESPAN. -/
+theorem span_rows_only_ops_noop_respan (ops : List Op) (o : Op) (h : o ∈ spanRows ops) :
+    o ∈ ops ∨ o = .noop ∨ o = .respan :=
+  Nest.spanRows_mem h
+
+/-- The row stream is properly nested: for every program whose spans hold no control operations
+    (`Nest.clean`, also required of the procedures in the code-block table), every state and every
+    successful execution, the rows appended to the trace bring the nesting depth (block starts +1,
+    END −1, never below zero: `Nest.nest`) back to where it started, from any starting depth — so
+    each JOIN / SPLIT / LOOP / CALL / SYSCALL / DYN / SPAN is closed by its own END. -/
+theorem decoded_stream_properly_nested (env : Env) (fuel : Nat) (b : Block) (vm vm' : Vm)
+    (he : Nest.EnvClean env) (hb : Nest.clean b = true)
+    (h : exec env fuel b vm = .ok vm') :
+    ∃ rows, vm'.trace = rows.reverse ++ vm.trace ∧ ∀ d, Nest.nest rows d = some d := by
+  obtain ⟨rows, hr, ht⟩ := (exec_runs_all env fuel).1 b vm vm' h
+  exact ⟨rows, ht, Nest.runs_nest he hr hb⟩
+
+/-- An END with nothing to close, or a block left open, is detected by `Nest.nest` (the checker is
+    not vacuous). -/
+example : Nest.nest [.span, .pad, .end, .end] 0 = none ∧ Nest.nest [.join, .span, .pad, .end] 0 = some 1 := by
+  decide
 
 -- Non-vacuity: a concrete two-span join runs to completion and its trace is the expected stream.
 example : ((exec {} 10 (.join (.span [.pad]) (.span [.incr])) { stack := List.replicate 16 0 }).toOption.map
